@@ -480,6 +480,43 @@ pub fn run(tier: &str) -> i32 {
     rep.states += rx;
     rep.transitions += rx;
 
+    // ---- string equality and membership on map keys (`m[ keys <op> .. ]`): keys that are prefixes, suffixes, infixes and
+    //      case variants of one another; the number of selected entries is read with count()
+    let knames = ["env", "environment", "nv", "Env", "e", "en", "vironment", "x"];
+    let mut kx = 0u64;
+    // every subset of three distinct keys out of the eight (56), every literal of the eight
+    for a in 0..knames.len() {
+        for b in (a + 1)..knames.len() {
+            for c2 in (b + 1)..knames.len() {
+                let keys = [knames[a], knames[b], knames[c2]];
+                let d = format!("{{\"m\":{{{}}}}}", keys.iter().enumerate().map(|(k, n)| format!("\"{}\":{}", n, k)).collect::<Vec<_>>().join(","));
+                for lit in knames {
+                    let eq = keys.iter().filter(|k| **k == lit).count();
+                    let forms: Vec<(String, usize)> = vec![
+                        (format!("keys == \"{}\"", lit), eq),
+                        (format!("keys != \"{}\"", lit), 3 - eq),
+                        (format!("keys in [\"{}\"]", lit), eq),
+                        (format!("keys not in [\"{}\"]", lit), 3 - eq),
+                        (format!("keys in [\"{}\", \"zz\"]", lit), eq),
+                        (format!("keys == /^{}$/", lit), eq),
+                    ];
+                    for (f, want_n) in forms {
+                        let t = format!("rule r {{\n  let n = count(m[ {} ])\n  %n == {}\n}}\n", f, want_n);
+                        let o = lib_run(&t, &d);
+                        acc.traces += 1;
+                        kx += 1;
+                        *acc.outcomes.entry(format!("keys-{}", o.class())).or_insert(0) += 1;
+                        if !matches!(&o, Obs::Ok(st, _) if *st == St::Pass) {
+                            acc.violate("key-filter-string-equality", format!("keys {:?}, filter `{}`: expected {} selected entries, observed {}", keys, f, want_n, o.short()), json!({"kind":"lib","rules":t,"data":d,"expected":"file=PASS r=PASS","observed":o.short()}));
+                        }
+                    }
+                }
+            }
+        }
+    }
+    rep.states += kx;
+    rep.transitions += kx;
+
     rep.distinct_nontrivial = (u.len() * u.len()) as u64;
     rep.samples.push(json!({"pair": [u[1].json(), u[14].json()], "forms": ["x == \"a\" (literal)", "x == y (query)"], "doc": "{\"x\":1,\"y\":\"a\"}"}));
     rep.samples.push(json!({"range": "x in r(0,2]", "values": "all universe values"}));
